@@ -34,7 +34,8 @@ def examples(tier):
 
 @st.composite
 def strategy_(draw, tier):
-    tkind = draw(st.sampled_from(["home", "home", "top_sticky", "top_alt", "trash_dir"]))
+    # (home_vol: the home trash, which records absolute Paths, lies on a volume of its own)
+    tkind = draw(st.sampled_from(["home", "home", "home_vol", "top_sticky", "top_alt", "trash_dir"]))
     return {"tkind": tkind,
             "kind": draw(st.sampled_from(gen.KINDS)),
             "name": draw(gen.names(raw=draw(st.integers(0, 11)) == 0)),
@@ -63,8 +64,8 @@ def run_case(case):
     out = Outcome()
     uid = case["uid"]
     home = "/home/u"
-    vols = ["/vol"]
-    on_home = case["tkind"] == "home"
+    vols = ["/vol"] + (["/home"] if case["tkind"] == "home_vol" else [])
+    on_home = case["tkind"] in ("home", "home_vol")
     root = home if on_home else "/vol"
     d = root + "/w"
     for c in case["subdirs"]:
